@@ -396,6 +396,7 @@ pub fn plan(prop: &str, tier: &str) -> Option<Plan> {
                     }
                     s.push(as_set(e2(prop, "tk", H_LOW, "skey+sshape2", &fl, 3, prof, 45.0)));
                     s.push(as_set(e2(prop, "zst", H_GOOD, "skey+sshape2", &fl, 1, prof, 45.0)));
+                    s.push(e2(prop, "zd", H_GOOD, "look+mut+ch1+bulk2+shape2+iterlite", &fl, 1, prof, 45.0));
                 }
                 bounds = json!({"E1": "Tk: d<=1 at N=64 / d<=2 at N=18 (chk), d<=1 at N=31..48 (asan)", "E2": "fixpoint u=3 (Tk; u=2 for HConst under asan), ZST", "profiles": "asan (optimised, assertions off) and chk (hashbrown debug assertions on)"});
             } else {
@@ -430,7 +431,9 @@ pub fn plan(prop: &str, tier: &str) -> Option<Plan> {
                 s.push(e2(prop, "tk", H_LOW, "mut+ch0+shape2+iterlite", &[], 3, "chk", 45.0));
                 s.push(as_set(e1(prop, "tk", H_GOOD, 0, "skey+sshape+siter", &[], 40, 1, 1, "chk", 45.0)));
                 s.push(as_set(e2(prop, "tk", H_LOW, "skey+sshape2", &[], 3, "chk", 45.0)));
-                bounds = json!({"sets": "Tk sets: d<=1 at N=40 with every iterator prefix; E2 fixpoint u=3", "E1": "Tk: d<=2 at N=20, d<=1 at N=64, iterators dropped/forgotten at every prefix (<=40 elements) ", "E2": "fixpoint u=3"});
+                s.push(e2(prop, "zd", H_GOOD, "look+mut+ch1+bulk2+shape2+iterlite", &[], 1, "chk", 45.0));
+                s.push(as_set(e2(prop, "zd", H_GOOD, "skey+sshape2+siter", &[], 1, "chk", 45.0)));
+                bounds = json!({"zero-sized": "a zero-sized element type with a Drop impl (created / dropped counts): E2 fixpoint, map and set", "sets": "Tk sets: d<=1 at N=40 with every iterator prefix; E2 fixpoint u=3", "E1": "Tk: d<=2 at N=20, d<=1 at N=64, iterators dropped/forgotten at every prefix (<=40 elements) ", "E2": "fixpoint u=3"});
             } else {
                 for &hk in &HS4 {
                     s.push(e1(prop, "tk", hk, 0, a, &[], 40, 2, 1, "chk", 1200.0));
@@ -442,6 +445,8 @@ pub fn plan(prop: &str, tier: &str) -> Option<Plan> {
                 s.push(as_set(e1(prop, "tk", H_GOOD, 0, "skey+sshape+siter", &[], 130, 1, 1, "chk", 900.0)));
                 s.push(as_set(e1(prop, "tk", H_LOW, 0, "skey+sshape/skey+siter", &[], 33, 2, 1, "chk", 1200.0)));
                 s.push(as_set(e2(prop, "tk", H_LOW, "skey+sshape2", &[], 5, "chk", 1200.0)));
+                s.push(e2(prop, "zd", H_GOOD, "look+mut+ch1+bulk2+shape2+iter", &[], 1, "chk", 300.0));
+                s.push(as_set(e2(prop, "zd", H_GOOD, "skey+sshape2+siter", &[], 1, "chk", 300.0)));
                 bounds = json!({"sets": "Tk sets: d<=1 at N=130, d<=2 at N=33; E2 fixpoint u=5", "E1": "Tk: d<=2 at N=40, d<=1 at N=130 (4 hashers)", "E2": "fixpoint u=5/4"});
             }
         }
